@@ -558,6 +558,39 @@ theorem rdfxml_resolver_rfc : Statement_rdfxml_resolver_rfc := by
     exact strippable_resolves' hs b hw hb
   · simp [resRFC, hu]
 
+/-- `rdfxml_declared_base`: whatever `base=`, the graph's own base and the `xml_base` option are — whenever the writer
+    cuts references against a (non-empty) base `b`, the document declares `xml:base = b`: a reader resolves the cut
+    references against the very base they were cut against (findings C03-F41 / F42 were violations of exactly this). -/
+def Statement_rdfxml_declared_base : Prop :=
+  ∀ (baseArg storeBase xmlBaseOpt : Option Str) (b : Str),
+    (xmlBases baseArg storeBase xmlBaseOpt).2 = some b → b ≠ [] → (xmlBases baseArg storeBase xmlBaseOpt).1 = some b
+
+theorem rdfxml_declared_base : Statement_rdfxml_declared_base := by
+  intro baseArg storeBase xmlBaseOpt b h hne
+  have hemp : b.isEmpty = false := by cases b with
+    | nil => exact absurd rfl hne
+    | cons _ _ => rfl
+  cases xmlBaseOpt with
+  | none =>
+    simp only [xmlBases] at h ⊢
+    rw [h]; simp [hemp]
+  | some x =>
+    have key : ∀ bb : Option Str, (if some x = bb then bb else none) = some b → some x = some b := by
+      intro bb hh
+      by_cases e : some x = bb
+      · rw [if_pos e] at hh; rw [e]; exact hh
+      · rw [if_neg e] at hh; exact absurd hh (by simp)
+    cases baseArg with
+    | some a => simp only [xmlBases] at h ⊢; exact key _ h
+    | none => simp only [xmlBases] at h ⊢; exact key _ h
+
+/-- regression witness for C03-F42: the pre-fix head declared the option's xml:base and cut against the other base -/
+theorem old_xml_base_mismatch :
+    xmlBasesOld (some "http://ex/a/".toList) none (some "http://ex/q".toList) =
+      (some "http://ex/q".toList, some "http://ex/a/".toList) ∧
+    xmlBases (some "http://ex/a/".toList) none (some "http://ex/q".toList) = (some "http://ex/q".toList, none) := by
+  decide
+
 /-- non-vacuity: two subjects, a language literal, a typed literal, a blank node object, a reference cut against the base -/
 example : xmlTree (some "http://ex/d/".toList)
     [(.iri "http://ex/d/s".toList, "http://ex/p".toList, .lit "v".toList none (some "en".toList)),
